@@ -58,10 +58,22 @@ def build():
     if REPO != "/repo":
         ct = os.path.join(h, "Cargo.toml")
         open(ct, "w").write(open(ct).read().replace("/repo/", REPO.rstrip("/") + "/"))
-    r = sh(["cargo", f"+{TC}", "build", "--offline"], cwd=h)
+    # build scripts are instrumented too and would drop default_*.profraw into their package directory (under /repo)
+    os.makedirs(os.path.join(COV, "build-prof"), exist_ok=True)
+    r = sh(["cargo", f"+{TC}", "build", "--offline"], cwd=h,
+           env=dict(os.environ, LLVM_PROFILE_FILE=os.path.join(COV, "build-prof", "b-%p-%m.profraw")))
     if r.returncode:
         sys.exit(r.stdout[-3000:])
     return os.path.join(h, "target", "debug", "hkverif")
+
+
+def test_module_start(src):
+    """1-based line of the trailing `#[cfg(test)] mod …` (a `#[cfg(test)] use …` / `fn …` near the
+    top of a file is not the test module), or len+1"""
+    for i, l in enumerate(src):
+        if re.match(r"#\[cfg\(test\)\]", l) and i + 1 < len(src) and re.match(r"(pub(\(crate\))? )?mod\b", src[i + 1].strip()):
+            return i + 1
+    return len(src) + 1
 
 
 def corpus_files(pid):
@@ -124,7 +136,7 @@ def report(pid, hk, prof):
     for (fn, ln), (cnt, name) in sorted(never.items()):
         if cnt == 0:
             src = srcs.setdefault(fn, open(fn, errors="replace").read().split("\n"))
-            tm = next((i + 1 for i, l in enumerate(src) if re.match(r"\s*#\[cfg\(test\)\]", l)), len(src) + 1)
+            tm = test_module_start(src)
             if ln >= tm:
                 continue
             text = src[ln - 1].strip()[:110] if 0 < ln <= len(src) else ""
@@ -148,7 +160,7 @@ def report(pid, hk, prof):
             continue
         src = open(fn, errors="replace").read().split("\n")
         # drop test modules at the end of the file
-        tm = next((i + 1 for i, l in enumerate(src) if re.match(r"\s*#\[cfg\(test\)\]", l)), len(src) + 1)
+        tm = test_module_start(src)
         u = sorted(x for x in unc if x < tm and x <= len(src) and src[x - 1].strip() and not src[x - 1].strip().startswith("//"))
         runs, start, prev = [], None, None
         for x in u:
